@@ -13,10 +13,15 @@ package oracle
 //@   invariant #1 idx:  rangeindex >= 0 - 1 && rangeindex < len(data.Entries)
 //@   invariant #1 done: forall j:Int :: 0 <= j && j <= rangeindex ==> has(feeds, data.Entries[j].Feed.FeedName)
 //@                         && has(fstate, data.Entries[j].Feed.FeedName, data.Entries[j].State)
+//@                         && has(byCtx, unhex(data.Entries[j].Feed.RequestContextID))
 //@   invariant #2 idx:  rangeindex >= 0 - 1
 //@   invariant #2 done: forall j:Int :: 0 <= j && j <= rangeindex_1 ==> has(feeds, data.Entries[j].Feed.FeedName)
 //@                         && has(fstate, data.Entries[j].Feed.FeedName, data.Entries[j].State)
-//@   invariant #2 cur:  has(feeds, data.Entries[rangeindex_1 + 1].Feed.FeedName)
+//@                         && has(byCtx, unhex(data.Entries[j].Feed.RequestContextID))
+//@   invariant #2 cur:  has(feeds, data.Entries[rangeindex_1 + 1].Feed.FeedName) && has(byCtx, unhex(data.Entries[rangeindex_1 + 1].Feed.RequestContextID))
 //@   ensures feeds_filed: forall j:Int :: 0 <= j && j < len(data.Entries) ==> has(feeds, data.Entries[j].Feed.FeedName)
 //@                         && has(fstate, data.Entries[j].Feed.FeedName, data.Entries[j].State)
+// ... and is found again by the request context that feeds it (the responses and state changes of that context are
+// looked up through this index: without it an imported feed never receives another value)
+//@   ensures feeds_indexed: forall j:Int :: 0 <= j && j < len(data.Entries) ==> has(byCtx, unhex(data.Entries[j].Feed.RequestContextID))
 //@ end
